@@ -483,6 +483,12 @@ pub fn check_c08(plan: &Plan, out: &RunOutput) -> Option<Violation> {
         ));
     };
     let ended = out.end.is_some();
+    // an injected refusal of idle is "observed" when the client has read that ACK completely
+    let denied_read_seq = out
+        .responses
+        .iter()
+        .find(|r| matches!(&r.kind, RespKind::Idle { trigger, .. } if *trigger == IdleTrigger::Denied))
+        .and_then(|r| r.fully_read_seq);
     let mut ops: Vec<&OpRecord> = out.ops.iter().collect();
     // R1: everything resolves
     for op in &ops {
@@ -587,6 +593,7 @@ pub fn check_c08(plan: &Plan, out: &RunOutput) -> Option<Violation> {
                 "a request issued at quiescence did not resolve within 60 s",
             ));
         }
+        let ended = ended && (out.end.as_ref().map(|e| e.kind != "idle_denied").unwrap_or(true) || denied_read_seq.is_some());
         if ended {
             // after the end (observed or not) it must not succeed with invented data
             let unit = unit_for(out, p);
@@ -611,7 +618,7 @@ pub fn check_c08(plan: &Plan, out: &RunOutput) -> Option<Violation> {
             ));
         }
     }
-    let client_saw_end = out.client_observed_end.is_some();
+    let client_saw_end = out.client_observed_end.is_some() || denied_read_seq.is_some();
     // R4: reports itself closed
     if ended && (client_saw_end || out.probe_request.is_some()) && out.closed_flags.iter().any(|c| !*c)
     {
@@ -678,6 +685,7 @@ pub fn check_c08(plan: &Plan, out: &RunOutput) -> Option<Violation> {
         let handles_at_quiescence = !out.closed_flags.is_empty();
         let observed = match end.kind.as_str() {
             "garbage" => garbage_seen && handles_at_quiescence,
+            "idle_denied" => denied_read_seq.is_some(),
             _ => client_saw_end,
         };
         if !end.clean && observed {
@@ -693,6 +701,8 @@ pub fn check_c08(plan: &Plan, out: &RunOutput) -> Option<Violation> {
                 .unwrap_or(0);
             let observed_seq = if is_garbage {
                 garbage_read_seq
+            } else if end.kind == "idle_denied" {
+                denied_read_seq.unwrap_or(0)
             } else {
                 out.client_observed_end.unwrap_or(0)
             };
@@ -821,16 +831,35 @@ pub enum ArtExpect {
 }
 
 /// 20-line reference: what loading album art must return for a stored picture.
+/// Offsets an honest client asks for: 0, then the running total of what it received, while that
+/// is below the size. The server hands out min(limit, remaining, cap_k) bytes for the k-th chunk.
+pub fn request_offsets(size: u64, limit: usize, caps: &[usize]) -> Vec<u64> {
+    let limit = limit.max(1) as u64;
+    let mut offs = vec![0u64];
+    let mut off = 0u64;
+    let mut k = 0usize;
+    while off < size {
+        let mut n = limit.min(size - off);
+        if !caps.is_empty() {
+            n = n.min(caps[k % caps.len()].max(1) as u64);
+        }
+        k += 1;
+        off += n;
+        if off < size {
+            offs.push(off);
+        }
+    }
+    offs
+}
+
 pub fn expect_art(pic: &Picture, limit: usize) -> ArtExpect {
     match expect_art_first(pic) {
         ArtExpect::Some(b, m) => {
             // a later chunk request may fail: the first continuation offset at or above the
-            // threshold (continuations are asked for at multiples of the chunk limit below size)
+            // threshold
             if let Some((threshold, code)) = pic.later_error {
-                let limit = limit.max(1) as u64;
-                let t = threshold.max(1);
-                let off = t.div_ceil(limit) * limit;
-                if off < b.len() as u64 {
+                let offs = request_offsets(b.len() as u64, limit, &pic.chunk_caps);
+                if offs.iter().any(|o| *o > 0 && *o >= threshold) {
                     return ArtExpect::Err(code);
                 }
             }
@@ -999,7 +1028,7 @@ pub fn check_c17(plan: &Plan, out: &RunOutput) -> Option<Violation> {
         }
         if let ArtExpect::Some(b, _) = &exp {
             let limit = plan.binary_limit.max(1);
-            let bound = b.len().div_ceil(limit) + 2;
+            let bound = request_offsets(b.len() as u64, limit, &pic.chunk_caps).len() + 2;
             if units.len() > bound {
                 return Some(Violation::new(
                     "C17",
